@@ -37,7 +37,7 @@ def iset(xs):
 
 # (label, families, NSet, MaxDepth, Shallow)
 RUNS = {
-    "quick": [("d2", STD, [1, 2], 2, ["pow"]), ("d3trig", ["d3trig"], [2], 3, []), ("n3", ["arith", "special2"], [3], 2, [])],
+    "quick": [("d2", STD, [1, 2], 2, ["pow"]), ("d3trig", ["d3trig"], [2], 3, []), ("n3", ["d3trig", "d3log"], [3], 2, [])],
     "thorough": [("d2", STD, [1, 2, 3], 2, [])] + [(f, [f], [2], 3, []) for f in D3],
 }
 RECORD = {"quick": (300, 6, 10), "thorough": (1500, 6, 12)}     # traces, min depth, max depth
